@@ -10,8 +10,13 @@ from harness.props.recording_check import RecordingCheck
 from harness.props.recording_lib import FCRASH, FFAIL, FOK, Tree, World
 
 # finding keys: <symptom>:<fault kind>@<innermost backend call stack of the faulted commit>
-#   recovery-<same|edited>:<kind>@<site>:<workload>:<died:Exc | stale-result:value>, fk-violation:...:<child->parent tables>,
-#   run-dies-on-transient-error@<site>:<workload>:died:<Exc>, retry-changes-records:record_call_node(<scenario>):...:lost=<tables>
+#   <crash|transient-error>@<outermost backend operation>:<run-died:Exc | recovery-died:Exc | stale-result | fk-violation |
+#   retry-changes-records:lost|dup>; workload, commit index, inner call path, tables and values are in the text / replay only
+
+
+# workloads of the fault sweep: no job is replayed by CSE in them (a stale result by way of a CSE replay of a
+# call node that lost its rows is C03's registered finding and must not mask a stale result here)
+C22_WORKLOADS = ("chain", "two_args")
 
 
 class Check(RecordingCheck):
@@ -59,7 +64,7 @@ class Check(RecordingCheck):
                     if outs[-1] == 0 and got != ref:
                         lost = [t for t in ("vals", "nodes", "edges", "args", "subs") if set(ref[t]) - set(got[t])]
                         dup = [t for t in ("vals", "nodes", "edges", "args", "subs") if len(got[t]) != len(set(got[t]))]
-                        key = f"retry-changes-records:record_call_node({label}):OperationalError@commit{k}:lost={'+'.join(lost)}:dup={'+'.join(dup)}"
+                        key = "transient-error@record_call_node:retry-changes-records:" + ("dup" if dup else "lost")
                         self.findings.append(Finding(
                             key, f"record_call_node ({label}, db_retries={R}) returned normally after one OperationalError at its "
                                  f"commit attempt {k} but the committed tables differ from the fault-free run: lost {lost}, duplicated {dup}",
@@ -69,7 +74,7 @@ class Check(RecordingCheck):
     # ------------------------------------------------------------------ oracle (b): end to end
     def oracle_e2e(self, work):
         n = 0
-        plan_names = [("two_args", 1), ("chain", 0)] if self.tier == "quick" else [(w, 1) for w in rl.MODELLED_WORKLOADS]
+        plan_names = [("two_args", 1), ("chain", 0)] if self.tier == "quick" else [(w, 1) for w in C22_WORKLOADS]
         for name, stride in plan_names:
             db = rl.fresh_db(str(work), "probe.db")
             _, _, log, s = rl.sched_run(name, rl.LEAF_V1[name], db)
@@ -89,7 +94,7 @@ class Check(RecordingCheck):
             for which, exp in (("same", "expected_same"), ("edited", "expected_edited")):
                 if base[which] != base[exp]:
                     self.findings.append(Finding(
-                        f"recovery-{which}:no-fault:{name}:stale-result:{base[which][1]!r}", f"workload {name} without any fault: the re-run ({'edited leaf' if which == 'edited' else 'same program'}) "
+                        "no-fault:stale-result", f"workload {name} without any fault: the re-run ({'edited leaf' if which == 'edited' else 'same program'}) "
                         f"gives {base[which]!r}, a run on an empty backend {base[exp]!r} (C03: CSE-replayed child)",
                         {"kind": "e2e", "workload": name, "plan": []}))
             for i in chosen:
@@ -100,23 +105,24 @@ class Check(RecordingCheck):
                     self.stat("e2e_fault_site", f"{kind}@{o['site']}")
                     self.stat("e2e_run1", o["run1"][0])
                     replay = {"kind": "e2e", "workload": name, "plan": [FOK] * i + [fate]}
-                    # the fault point: workload, backend call stack of the commit, and which occurrence of it
-                    site = f"{o['site'] or '?'}:{name}"
-                    replay["fault_point"] = f"{kind}@{site} (commit {i}, occurrence {occ[i]} of this call stack)"
+                    path = o["site"] or "?"
+                    op = path.split(">")[0]                  # the outermost backend operation of the faulted commit
+                    where = f"commit {i} of workload {name} ({path}, occurrence {occ[i]} of this call stack)"
+                    replay["fault_point"] = f"{kind} at {where}"
                     if o["fk"]:
                         tables = sorted({f"{r[0]}->{r[2]}" for r in o["fk"]})
                         self.findings.append(Finding(
-                            f"fk-violation:{kind}@{site}:{','.join(tables)}", f"PRAGMA foreign_key_check reports {len(o['fk'])} row(s) "
-                            f"({', '.join(tables)}) after a {kind} at commit {i} ({site}) and two recovery runs", replay))
+                            f"{kind}@{op}:fk-violation", f"PRAGMA foreign_key_check reports {len(o['fk'])} row(s) "
+                            f"({', '.join(tables)}) after a {kind} at {where} and two recovery runs", replay))
                     if fate == FFAIL and o["run1"][0] == "died":
                         self.findings.append(Finding(
-                            f"run-dies-on-transient-error@{site}:died:{o['run1'][1]}", f"one transient OperationalError at commit {i} "
-                            f"({site}) is not survived although db_retries=3: the run dies with {o['run1'][1]}", replay))
+                            f"{kind}@{op}:run-died:{o['run1'][1]}", f"one transient OperationalError at {where} "
+                            f"is not survived although db_retries=3: the run dies with {o['run1'][1]}", replay))
                     for which, exp in (("same", "expected_same"), ("edited", "expected_edited")):
                         if o[which] != o[exp] and o[which] != base[which]:
-                            outcome = f"died:{o[which][1]}" if o[which][0] == "died" else f"stale-result:{o[which][1]!r}"
+                            outcome = f"recovery-died:{o[which][1]}" if o[which][0] == "died" else "stale-result"
                             self.findings.append(Finding(
-                                f"recovery-{which}:{kind}@{site}:{outcome}", f"after a {kind} at commit {i} ({site}), the recovery run "
+                                f"{kind}@{op}:{outcome}", f"after a {kind} at {where}, the recovery run "
                                 f"({'edited leaf' if which == 'edited' else 'same program'}) gives {o[which]!r}, a run on an empty backend {o[exp]!r}",
                                 replay))
         return n
@@ -139,7 +145,7 @@ class Check(RecordingCheck):
         self.stat("oracle", "retried_operations", n1)
         self.stat("oracle", "end_to_end_fault_positions", n2)
         # report what is closest to the property text first: wrong results, then dead recovery runs, then the rest
-        rank = lambda f: 0 if "stale-result" in f.key else 1 if f.key.startswith("recovery-") else 2 if f.key.startswith("retry-") else 3
+        rank = lambda f: 0 if "stale-result" in f.key else 1 if "recovery-died" in f.key else 2 if "retry-changes" in f.key else 3
         self.findings.sort(key=rank)
         from harness.lib import load_known_findings
         known = {k["key"] for k in load_known_findings() if k.get("property") == self.id}
